@@ -394,31 +394,69 @@ fn c13_e2e(args: &Args, report: &mut Report, rng: &mut Rng) {
         let (s1, tr) = (script.clone(), traces.clone());
         let turn = lockstep.then(|| Arc::new(AtomicUsize::new(0)));
         let batch = if crng.chance(1, 2) { BatchMode::fixed(crng.usize(1, 5)) } else { BatchMode::default() };
+        // one case in three: the windowed pipeline is the body of a replay loop (every round must
+        // window the same elements again; nothing may survive a round)
+        let in_loop = crng.chance(1, 3);
+        let rounds = if in_loop { crng.usize(2, 3) } else { 1 };
+        let recorded: Arc<std::sync::Mutex<Vec<(u32, Vec<(u64, i64)>)>>> = Default::default();
+        let rec2 = recorded.clone();
         let res = run_job(
             &layout,
             RunOpts::default(),
             move |ctx, _| {
-                ctx.stream(ScriptSource::new(s1.clone(), turn.clone(), 50))
-                    .batch_mode(batch)
-                    .group_by(|r: &Rec| r.k)
-                    .drop_key()
-                    .probed(RecProbe::new(1, "window-in", &tr))
-                    .key_by(|r: &Rec| r.k)
-                    .window(EventTimeWindow::sliding(size, slide))
-                    // result: id = xor-free encoding is not possible; collect ids into v via fold
-                    .fold(Vec::<(u64, i64)>::new(), |a: &mut Vec<(u64, i64)>, r: Rec| a.push((r.id, r.v)))
-                    .collect_vec()
+                let src = ctx.stream(ScriptSource::new(s1.clone(), turn.clone(), 50)).batch_mode(batch);
+                if in_loop {
+                    let (tr2, rec3) = (tr.clone(), rec2.clone());
+                    src.shuffle()
+                        .replay(
+                            rounds,
+                            0i64,
+                            move |s, _| {
+                                s.group_by(|r: &Rec| r.k)
+                                    .drop_key()
+                                    .probed(RecProbe::new(1, "window-in", &tr2))
+                                    .key_by(|r: &Rec| r.k)
+                                    .window(EventTimeWindow::sliding(size, slide))
+                                    .fold(Vec::<(u64, i64)>::new(), |a: &mut Vec<(u64, i64)>, r: Rec| a.push((r.id, r.v)))
+                                    .unkey()
+                                    .map(move |(k, ids)| {
+                                        rec3.lock().unwrap().push((k, ids.clone()));
+                                        Rec { id: ids.len() as u64, k, v: 1 }
+                                    })
+                                    .drop_timestamps()
+                            },
+                            |d: &mut i64, r: Rec| *d += r.v,
+                            |a: &mut i64, d: i64| *a += d,
+                            |_| true,
+                        )
+                        .for_each(|_| {});
+                    None
+                } else {
+                    Some(
+                        src.group_by(|r: &Rec| r.k)
+                            .drop_key()
+                            .probed(RecProbe::new(1, "window-in", &tr))
+                            .key_by(|r: &Rec| r.k)
+                            .window(EventTimeWindow::sliding(size, slide))
+                            .fold(Vec::<(u64, i64)>::new(), |a: &mut Vec<(u64, i64)>, r: Rec| a.push((r.id, r.v)))
+                            .collect_vec(),
+                    )
+                }
             },
-            |o, _| o.get(),
+            |o, _| o.and_then(|o| o.get()),
         );
         let h = mix(hash_str(&format!("{:?}", script.steps)), mix(size as u64, slide as u64) ^ hash_str(&layout.name()));
         let detail = |e: Option<String>| json!({"engine":"winmon.event_time.e2e","case":case,"shard":args.shard,"seed":args.seed,"size":size,"slide":slide,
-            "layout":layout.name(),"lockstep":lockstep,"script_steps":script.steps.len(),"replicas":script.replicas,"error":e});
+            "layout":layout.name(),"lockstep":lockstep,"rounds_of_replay_loop": if in_loop { json!(rounds) } else { json!(null) },"script_steps":script.steps.len(),"replicas":script.replicas,"error":e});
         if !res.all_ok() {
-            report.case(Verdict::Inconclusive, None, || detail(Some(format!("job failed: {:?} {:?}", res.end, res.panic_messages()))));
+            let msgs = res.panic_messages().join(" | ");
+            let env_problem = msgs.contains("Failed to bind") || msgs.contains("Failed to connect") || msgs.is_empty();
+            let v = if env_problem { Verdict::Inconclusive } else { Verdict::Violated };
+            report.case(v, (!env_problem).then_some(h), || detail(Some(format!("the windowed job crashed on a script that respects the watermark contract (elements of that round reach no window result): {msgs}"))));
             continue;
         }
-        let results: Vec<(u32, Vec<(u64, i64)>)> = res.hosts.iter().flatten().filter_map(|h| match h { HostOutcome::Ok(Some(v)) => Some(v.clone()), _ => None }).flatten().collect();
+        let mut results: Vec<(u32, Vec<(u64, i64)>)> = res.hosts.iter().flatten().filter_map(|h| match h { HostOutcome::Ok(Some(v)) => Some(v.clone()), _ => None }).flatten().collect();
+        results.extend(recorded.lock().unwrap().iter().cloned());
         // expected elements per key
         let mut per_key: BTreeMap<u32, Vec<(u64, i64)>> = BTreeMap::new();
         for (_, s) in &script.steps {
@@ -449,8 +487,8 @@ fn c13_e2e(args: &Args, report: &mut Report, rng: &mut Rng) {
         for v in per_key.values() {
             for (id, ts) in v {
                 let c = cover.get(id).copied().unwrap_or(0);
-                if (tumbling && c != 1) || (!tumbling && !(1..=max_cover).contains(&c)) {
-                    err = Some(format!("element {id} (ts {ts}) appears in {c} results"));
+                if (tumbling && c != rounds) || (!tumbling && !(rounds..=rounds * max_cover).contains(&c)) {
+                    err = Some(format!("element {id} (ts {ts}) appears in {c} results over {rounds} round(s)"));
                 }
             }
         }
